@@ -175,6 +175,19 @@ def run_program(ctx, aotools, rng, pid):
     du1, du2 = digest(isolated.output_of(isolated.create(aotools, u))), digest(isolated.output_of(isolated.create(aotools, u)))
     ctx.count("unseeded_pairs")
     ctx.check(du1 != du2, "unseeded_calls_identical:" + a["kind"], "two unseeded calls returned identical screens", wit)
+    outs = []
+    for _ in range(2):          # the global generators put in the same state before each unseeded call
+        np.random.seed(4242)
+        random.seed(4242)
+        o = isolated.create(aotools, u)
+        d0 = digest(isolated.output_of(o))
+        if u["kind"] in ("vk", "fried"):
+            o.add_row()
+            d0 = d0 + digest(isolated.output_of(o))
+        outs.append(d0)
+    ctx.count("unseeded_pairs")
+    ctx.check(outs[0] != outs[1], "unseeded_calls_follow_global_rng:" + a["kind"],
+              "two unseeded calls are identical when NumPy's global generator is put in the same state before each", wit)
 
 
 def run_threaded(ctx, aotools, rng, pid):
